@@ -27,10 +27,13 @@ ValsOf(k) == CASE k = "bare" -> {"-"}
                [] k = "sq"   -> {"empty", "gt", "ltkv", "otherq", "uni", "looktag"}
 AttrSet == UNION {[name : Names, vk : {k}, val : ValsOf(k)] : k \in ValKinds}
 
-LookAlikes == {"none", "text", "b_tag", "lone_lt", "a_lt_b", "blockquote", "selfclose", "upper", "spaced", "noattr_glued", "unterminated"}
+LookAlikes == {"none", "text", "b_tag", "lone_lt", "a_lt_b", "blockquote", "selfclose", "upper", "spaced", "noattr_glued", "unterminated",
+               "unterminated_dq", "glued_after_end"}
 
 \* '<' candidates of the comment, in order: noise-before, the tag, noise-after, the end tag
-Candidates == (IF noise.before \in {"none", "text"} THEN <<>> ELSE <<[k |-> "look", id |-> noise.before]>>)
+Candidates == (IF noise.before \in {"none", "text"} THEN <<>>
+               ELSE IF noise.before = "glued_after_end" THEN <<[k |-> "end", id |-> "previous block"]>>
+               ELSE <<[k |-> "look", id |-> noise.before]>>)
               \o <<[k |-> "start", id |-> "tag"]>>
               \o (IF noise.after \in {"none", "text"} THEN <<>> ELSE <<[k |-> "look", id |-> noise.after]>>)
               \o <<[k |-> "end", id |-> layout.endsp]>>
@@ -39,7 +42,12 @@ Init ==
   /\ attrs \in UNION {[1..n -> AttrSet] : n \in 0..MaxAttrs}
   /\ layout \in Layouts
   /\ noise \in NoisePairs
-  /\ noise.before # "unterminated"        \* an unclosed quote before the tag swallows it (by the grammar; gray)
+  \* A look-alike with an unclosed quote BEFORE the tag: its value runs on to the first quote of the same kind inside
+  \* the real tag (an opening quote of one of its attributes), which is directly followed by that attribute's value
+  \* or by the closing quote -- never by whitespace or '>' -- so the candidate is not a start tag by the grammar and
+  \* the scan resumes one byte after its '<' (SkipLt), reaching the real tag.  (This used to be excluded as gray.)
+  \* "glued_after_end": the tag directly follows the end tag of a previous block and is the last thing in its comment.
+  /\ (noise.before = "glued_after_end" => noise.after = "none")
   /\ cur = 1 /\ out = <<>> /\ pc = "scan"
 
 \* `if let Ok(..) = parse_start_tag.parse_peek(..)`
@@ -62,7 +70,7 @@ NameSet(a) == {a[k].name : k \in 1..Len(a)}
 Expected(a) == [nm \in NameSet(a) |-> [vk |-> a[LastIdx(a, nm)].vk, val |-> a[LastIdx(a, nm)].val]]
 
 Done == pc = "done"
-RoundTrip == Done => out = <<"S", "E">>           \* exactly the one block, look-alikes ignored
+RoundTrip == Done => out = (IF noise.before = "glued_after_end" THEN <<"E">> ELSE <<>>) \o <<"S", "E">>   \* exactly the one block, look-alikes ignored
 TypeOK == pc \in {"scan", "done"}
 
 Emit == Done => PrintT(<<"CASE", ToJson([attrs |-> attrs, layout |-> layout, noise |-> noise,
